@@ -1216,6 +1216,84 @@ fn scenario_keepalive(args: &Args, report: &mut Report) {
     report.sample(json!({"case": case, "connections": n_conns, "rounds": rounds}));
 }
 
+// ------------------------------------------------------------------------------------------------
+// announce immediately followed by the end of the connection (C17 last clause / C08)
+// ------------------------------------------------------------------------------------------------
+
+/// Every connection sends one announce (own peer id, one torrent) and is closed or reset at once, without reading the
+/// reply. When the tracker has processed all closures (hook counters), the torrent must hold no peer: "when a connection
+/// is closed or dropped, every peer entry it created disappears ... without any further message from the client".
+/// The announce travels the request mesh, the closure the control mesh: if the closure overtakes the announce, the
+/// entry is created after its connection is gone and nothing ever removes it (clock frozen: no expiry).
+fn scenario_closerace(args: &Args, report: &mut Report) {
+    let sw = args.usize("socket_workers", 2);
+    let ww = args.usize("swarm_workers", 2);
+    let n = args.usize("connections", 400);
+    aquatic_common::verif::set_clock(Some(1000));
+    let config = base_config(sw, ww);
+    let tracker = match start(config) {
+        Ok(t) => t,
+        Err(e) => {
+            report.inconclusive(format!("tracker start: {}", e));
+            return;
+        }
+    };
+    let case = json!({"engine":"ws_live","scenario":"closerace","config":format!("{}x{}", sw, ww),"connections":n});
+    let h = hash_n(0x8c, 0, 1);
+    let cleanup0 = counter("ws.cleanup_done");
+    let mut opened = 0u64;
+    for i in 0..n {
+        if let Ok(mut c) = WsConn::open(tracker.addr_v4(), None) {
+            opened += 1;
+            let mut pid = [0x8cu8; 20];
+            pid[0] = (i % 251) as u8;
+            pid[1] = (i / 251) as u8;
+            let _ = c.send_text(&announce_json(&h, &pid, Some("started"), Some(1), None, None));
+            match i % 3 {
+                0 => c.reset(),
+                1 => drop(c),
+                _ => {
+                    let _ = c.wait_message(50);
+                    c.reset();
+                }
+            }
+        }
+        report.eval();
+    }
+    // all closures processed by the socket workers ...
+    if !vcore::net::wait_until(60_000, || counter("ws.cleanup_done") >= cleanup0 + opened) {
+        report.inconclusive(format!("only {} of {} connection clean-ups observed", counter("ws.cleanup_done") - cleanup0, opened));
+        return;
+    }
+    // ... and by the swarm workers: poll the observer's scrape until it is empty (event, not deadline), judged by canaries
+    let mut obs = WsConn::open(tracker.addr_v4(), None).unwrap();
+    let t0 = Instant::now();
+    let mut got;
+    loop {
+        got = scrape_counts(&mut obs, &h);
+        report.eval();
+        match got {
+            Some((0, 0)) => break,
+            Some(_) if t0.elapsed() < Duration::from_secs(20) => std::thread::sleep(Duration::from_millis(200)),
+            _ => break,
+        }
+    }
+    report.nontrivial(vcore::fnv(format!("closerace/{}x{}", sw, ww).as_bytes()));
+    match got {
+        Some((0, 0)) => {}
+        Some((s, l)) => {
+            if tracker_responsive(tracker.addr_v4()) {
+                report.add("closerace.surviving_entries", s + l);
+                report.violation("ws.close.overtakes_inflight_announce", "ownership", format!("{} connections each announced one peer and were closed / reset at once; all {} clean-ups were processed, yet 20 s later the torrent still holds {} peer(s) whose connections are gone", opened, opened, s + l), case.clone());
+            } else {
+                report.inconclusive("tracker does not answer canaries".to_string());
+            }
+        }
+        None => report.violation("ws.live.scrape_not_answered", "routing", "observer scrape after the close race not answered".to_string(), case.clone()),
+    }
+    report.sample(json!({"case": case, "opened": opened, "final": format!("{:?}", got)}));
+}
+
 fn scenario_expiry(args: &Args, report: &mut Report) {
     let sw = args.usize("socket_workers", 1);
     let ww = args.usize("swarm_workers", 2);
@@ -1392,14 +1470,33 @@ fn scenario_corpus(args: &Args, report: &mut Report) {
             }
         }
     }
-    std::thread::sleep(Duration::from_millis(300));
+    // The three keepers must still be there. Hostile *valid* announces (and their bit-flipped but still valid variants)
+    // created peers of their own; those go away when the tracker has processed the closure of their connections - an
+    // event, not a deadline: poll (up to 90 s, sooner when reached), judge a leftover only while the tracker answers canaries.
     let mut obs = WsConn::open(tracker.addr_v4(), None).unwrap();
-    let got = scrape_counts(&mut obs, &h);
-    report.eval();
-    // the three keepers are still there; hostile valid announces (peer 77 / 78) were dropped with their connections
+    let t0 = Instant::now();
+    let mut got;
+    let mut polls = 0u64;
+    loop {
+        got = scrape_counts(&mut obs, &h);
+        report.eval();
+        polls += 1;
+        match got {
+            Some((2, 1)) => break,
+            Some((s, l)) if s >= 2 && l >= 1 && t0.elapsed() < Duration::from_secs(90) => std::thread::sleep(Duration::from_millis(200)),
+            _ => break,
+        }
+    }
+    report.add("corpus.final_state_polls", polls);
     match got {
         Some((2, 1)) => {}
-        Some((s, l)) if s == 2 && (1..=3).contains(&l) => report.note(format!("scrape after the corpus: {}/{} (late clean-up of hostile connections still in flight)", s, l)),
+        Some((s, l)) if s >= 2 && l >= 1 => {
+            if tracker_responsive(tracker.addr_v4()) {
+                report.violation("ws.close.overtakes_inflight_announce", "ownership", format!("90 s after {} hostile inputs (all their connections closed) the known torrent still shows {}/{}, expected 2 seeders and 1 leecher", n, s, l), case.clone());
+            } else {
+                report.inconclusive(format!("final state {}/{} after the corpus while the tracker does not answer canaries (starved machine)", s, l));
+            }
+        }
         other => report.violation("ws.live.state_changed_or_dead_after_hostile_input", "crash", format!("after {} hostile inputs the scrape of the known torrent gives {:?}, expected 2 seeders and 1 leecher", n, other), case.clone()),
     }
     report.sample(json!({"hostile_inputs": n, "kinds": ["valid announce with offer", "scrape", "nested [", "nested {\"a\":", "random bytes", "bad identifier lengths", "2500-hash scrape", "600 offers"]}));
@@ -1417,6 +1514,7 @@ fn main() {
         "address" => scenario_address(&args, &mut report),
         "access" => scenario_access(&args, &mut report),
         "keepalive" => scenario_keepalive(&args, &mut report),
+        "closerace" => scenario_closerace(&args, &mut report),
         "expiry" => scenario_expiry(&args, &mut report),
         "corpus" => scenario_corpus(&args, &mut report),
         other => report.inconclusive(format!("unknown scenario {}", other)),
